@@ -7,11 +7,13 @@ import (
 	"os"
 	"path/filepath"
 	"regexp"
+	"sort"
 	"strings"
 	"testing"
 
 	"go.flow.arcalot.io/engine/internal/verif/vcase"
 	"go.flow.arcalot.io/engine/internal/verif/vrun"
+	"go.flow.arcalot.io/engine/internal/verif/vsched"
 	"pgregory.net/rapid"
 )
 
@@ -100,10 +102,42 @@ func engineRace(block string) (bool, string) {
 	return where != "", where
 }
 
+var motifSitesCache = map[int][]string{}
+
+// motifSites returns the schedule points a motif passes (one undisturbed run that counts every site).
+func motifSites(mi int, mc *vcase.Case) []string {
+	if l, ok := motifSitesCache[mi]; ok {
+		return l
+	}
+	var l []string
+	for site, n := range RunCase(clonePlanCase(mc, vsched.Plan{"*": {}}).Request("run")).SiteHits {
+		if n > 0 {
+			l = append(l, site)
+		}
+	}
+	sort.Strings(l)
+	if len(l) == 0 {
+		panic("harness failure: motif " + mc.Profile + " passes no schedule point (binary built without schedule points?)")
+	}
+	motifSitesCache[mi] = l
+	return l
+}
+
 func genRaceCase(rt *rapid.T) *RaceCase {
-	kind := rapid.SampledFrom([]string{"exit-path", "exit-path", "loop", "multi", "multi", "provider"}).Draw(rt, "kind")
+	kind := rapid.SampledFrom([]string{"exit-path", "exit-path", "loop", "multi", "multi", "provider", "delayed-motif", "delayed-motif"}).Draw(rt, "kind")
 	rc := &RaceCase{Kind: kind}
 	switch kind {
+	case "delayed-motif":
+		// one pair of C09's sweep: a canonical workflow with one schedule point it passes held for 60 ms
+		motifs := vcase.Motifs()
+		mi := rapid.IntRange(0, len(motifs)-1).Draw(rt, "motif")
+		hit := motifSites(mi, motifs[mi])
+		site := hit[rapid.IntRange(0, len(hit)-1).Draw(rt, "site")]
+		sp := vsched.SitePlan{DelayMs: 60, First: 3}
+		if rapid.Bool().Draw(rt, "every-pass") {
+			sp = vsched.SitePlan{DelayMs: 40}
+		}
+		rc.Run = clonePlanCase(motifs[mi], vsched.Plan{site: sp})
 	case "exit-path":
 		rc.Run = genExitPathCase(rt, "C17")
 	case "loop":
@@ -120,12 +154,18 @@ func genRaceCase(rt *rapid.T) *RaceCase {
 func checkRaceCase(st *Stats, rc *RaceCase) string {
 	overlapping := false
 	switch rc.Kind {
-	case "exit-path", "loop":
+	case "exit-path", "loop", "delayed-motif":
 		if rc.Kind == "exit-path" {
 			tameNever2(rc.Run)
 		}
 		ans := RunCase(rc.Run.Request("run"))
 		overlapping = len(rc.Run.Main.Steps) >= 2 || rc.Kind == "loop"
+		if rc.Kind == "delayed-motif" {
+			overlapping = false
+			for site := range rc.Run.Plan {
+				overlapping = overlapping || ans.SiteHits[site] > 0
+			}
+		}
 		if ans.ProcessDeath != "" && strings.Contains(ans.ProcessDeath, "DATA RACE") {
 			return "race detector aborted the worker: " + short(ans.ProcessDeath, 1500)
 		}
@@ -194,5 +234,52 @@ func TestC17(t *testing.T) {
 			return ""
 		}
 	}
-	runProperty(t, "C17", genRaceCase, check)
+	if os.Getenv("VERIF_REPLAY") != "" {
+		runProperty(t, "C17", genRaceCase, check)
+		return
+	}
+	st := newStats("C17")
+	defer st.flush()
+	// systematic part: the two smallest workflows with concurrent engine activity (two steps that
+	// finish 5 ms apart; a loop over three items), every schedule point they pass held for 40 ms on
+	// every pass - the variant of C09's sweep that keeps goroutines queueing on the locks
+	shard, shards := envInt("VERIF_SHARD", 0), envInt("VERIF_SHARDS", 1)
+	pairs := 0
+	for mi, mc := range vcase.Motifs() {
+		if mc.Profile != "motif:join" && mc.Profile != "motif:foreach-3" {
+			continue
+		}
+		for si, site := range motifSites(mi, mc) {
+			if (si+mi)%shards != shard {
+				continue
+			}
+			pairs++
+			rc := &RaceCase{Kind: "delayed-motif", Run: clonePlanCase(mc, vsched.Plan{site: {DelayMs: 40}})}
+			// an overlap of a few microseconds still has to happen inside the widened window: the
+			// two-step workflow is cheap, it gets several attempts per schedule point
+			attempts := 1
+			if mc.Profile == "motif:join" {
+				attempts = 2
+				if strings.HasPrefix(site, "workflow/") {
+					attempts = 8 // the run loop is where the two steps meet
+				}
+			}
+			for attempt := 0; attempt < attempts; attempt++ {
+				if msg := checkRaceCase(st, rc); msg != "" {
+					st.Fail(rc, msg)
+					t.Fatalf("C17 (%s, site %s held 40 ms on every pass): %s", mc.Profile, site, msg)
+				}
+			}
+		}
+	}
+	st.mu.Lock()
+	st.Extra["systematic_motif_site_pairs"] = pairs
+	st.mu.Unlock()
+	rapid.Check(t, func(rt *rapid.T) {
+		rc := genRaceCase(rt)
+		if msg := checkRaceCase(st, rc); msg != "" {
+			st.Fail(rc, msg)
+			rt.Fatalf("C17: %s", msg)
+		}
+	})
 }
